@@ -1,15 +1,127 @@
 /-
-Driver.CliSuite — suite `cli` (stub: replaced by the owner of the suite).
-Must define `cliLine : String → String` (case line ↦ model observation line) and
-`cliPred : String → String → String → String` (property id, case line, implementation
-observation line ↦ "ok" | "fail <reason>").
+Driver.CliSuite — suite `cli`: parse a case, run Model.Cli, print the
+observation in the canonical form of harness/src/suites/cli.rs; evaluate `P_C20`.
 -/
 import Driver.Sx
+import Driver.ClientSuite
+import VarlinkVerif.Model.Cli
+import VarlinkVerif.Pred.Cli
 
 namespace VV
+open Sx
+open Client
 
-def cliLine (_line : String) : String := "(stub)"
+namespace CliDrv
 
-def cliPred (_prop _caseLine _obsLine : String) : String := "fail stub-suite"
+structure Parsed where
+  form : String
+  listen : String
+  url : String
+  args : Option (Option Json)     -- none: absent; some none: not JSON; some (some j)
+  more : Bool
+  frames : List Msg
+
+def parseArgs : Sx → Option (Option (Option Json))
+  | .atom "-" => some none
+  | .list [.atom "args", _, .atom "bad"] => some (some none)
+  | .list [.atom "args", _, j] => (toJson j).map fun j => some (some j)
+  | _ => none
+
+def parseCase : Sx → Option Parsed
+  | .list [.atom "cli", .atom form, listen, url, args, .atom more, _, .list (.atom "frames" :: fs)] => do
+    let listen ← asStr listen
+    let url ← asStr url
+    let args ← parseArgs args
+    let fs ← fs.mapM ClientDrv.parseFrame
+    pure { form, listen, url, args, more := more == "t", frames := fs.flatten }
+  | _ => none
+
+/-- `varlink_connect` drops `;parameters` of unix addresses -/
+def connAddr (a : String) : String :=
+  if a.startsWith "unix:" then ((a.splitOn ";").head?).getD a else a
+
+def ofReport : Option Cli.Report → Sx
+  | none => .atom "-"
+  | some (.std s p) => .list [.atom "std", strAtom s, strAtom p]
+  | some (.named n ps) => .list [.atom "named", strAtom n, ofOptJson ps]
+  | some .failed => .atom "failed"
+
+def obs (conns : Nat) (resolver : Option String) (log : List Request) (out : List Json) (exit : Sx) (report : Sx) : Sx :=
+  .list [.atom "cli-obs", .list [.atom "conns", .atom (toString conns)],
+    .list [.atom "resolver", ofOptStr resolver],
+    .list (.atom "log" :: log.map ClientDrv.ofReq),
+    .list (.atom "stdout" :: out.map ofJson), .atom "t", exit, report]
+
+def msg (c : String) : Sx := .list [.atom "msg", .atom c]
+
+def runCase (c : Parsed) : Sx :=
+  let peer : Peer := fun log _ => if log.isEmpty then (c.frames, true) else ([], false)
+  let call (method : String) (resolver : Option String) : Sx :=
+    match c.args with
+    | some none => obs 1 resolver [] [] (.atom "1") (msg "parse-args")
+    | args =>
+      let a : Option Json := match args with | some (some j) => some j | _ => none
+      let o := Cli.runCall peer {} method a c.more
+      obs 1 resolver o.wire.log o.stdout (if o.hang then .atom "hung" else .atom (toString o.exit)) (ofReport o.report)
+  match Cli.split c.url with
+  | .invalid => obs 0 none [] [] (.atom "1") (msg "invalid-address")
+  | .direct a m =>
+    if c.form != "nolisten" && c.form != "resolver" && connAddr a == c.listen then call m none
+    else obs 0 none [] [] (.atom "1") (msg "connect")
+  | .resolve i m =>
+    if c.form == "resolver" then call m (some i)
+    else obs 0 none [] [] (.atom "1") (msg "connect-resolver")
+
+def parseReport : Sx → Option (Option Cli.Report × Bool)
+  | .atom "-" => some (none, false)
+  | .atom "failed" => some (some .failed, false)
+  | .list [.atom "std", s, p] => do
+    let s ← asStr s
+    let p ← asStr p
+    pure (some (.std s p), false)
+  | .list [.atom "named", n, ps] => do
+    let n ← asStr n
+    let ps ← asOptJson ps
+    pure (some (.named n ps), false)
+  | .list [.atom "msg", _] => some (none, true)
+  | _ => none
+
+def pred (cs os : Sx) : Cli.Verdict :=
+  match parseCase cs, os with
+  | some c, .list [.atom "cli-obs", .list [.atom "conns", n], _, .list (.atom "log" :: log),
+                   .list (.atom "stdout" :: docs), clean, exit, report] =>
+    match asNat n, docs.mapM toJson, parseReport report with
+    | some n, some docs, some (rep, other) =>
+      let (lg, raw) := ClientDrv.parseLog log
+      match c.args with
+      | some none => if docs.isEmpty && asNat exit != some 0 then none else some "output-or-exit-0-with-unparsable-arguments"
+      | args =>
+        Cli.P_C20 { url := c.url, args := (match args with | some (some j) => some j | _ => none), more := c.more, frames := c.frames }
+          { conns := n, log := lg, rawLog := raw, stdout := docs,
+            clean := (match clean with | .atom "t" => true | _ => false),
+            exit := asNat exit, report := rep, otherMsg := other }
+    | _, _, _ => some "unparsable-observation"
+  | _, .list (.atom "panic" :: _) => some "panic"
+  | _, _ => some "unparsable-case-or-observation"
+
+end CliDrv
+
+def cliLine (line : String) : String :=
+  match parse line with
+  | none => "(model-parse-error)"
+  | some sx =>
+    match CliDrv.parseCase sx with
+    | none => "(model-case-error)"
+    | some c => render (CliDrv.runCase c)
+
+def cliPred (prop caseLine obsLine : String) : String :=
+  match parse caseLine, parse obsLine with
+  | some cs, some os =>
+    if prop == "C20" then
+      match CliDrv.pred cs os with
+      | none => "ok"
+      | some r => "fail " ++ r
+    else "fail unknown-property"
+  | _, _ => "fail unparsable-line"
 
 end VV
